@@ -155,7 +155,23 @@ class C16(Prop):
         pick = lambda: rng.choice(defined) if defined and rng.random() < 0.85 else rng.choice(SERVICE_NAMES + ["", "nope"])
         svc = pick() if rng.random() < 0.35 else None
         env = pick() if rng.random() < 0.3 else None
-        return {"kind": "cli", "files": [to_cfg(f) for f in files], "sets": sets, "svc": svc, "env": env}
+        case = {"kind": "cli", "files": [to_cfg(f) for f in files], "sets": sets, "svc": svc, "env": env}
+        if index % 5 == 1 and files and isinstance(files[0].get("services"), dict):
+            # "YAML references" (an anchor and a plain alias, as the deployment guide recommends for files with several
+            # services): two services share one component mapping, a later file overrides inside the one, the other is
+            # selected. (No --set here: writing through a shared mapping is Python's aliasing, not the statement's.)
+            secs = [k for k, v in files[0]["services"].items() if isinstance(v, dict)]
+            withc = [k for k in secs if isinstance(files[0]["services"][k].get("component"), dict)]
+            if withc and len(secs) >= 2:
+                a = withc[0]
+                b = next(k for k in secs if k != a)
+                comp = files[0]["services"][a]["component"]
+                comp["shared_opts"] = {"host": "h1", "tls": True}
+                files[0]["services"][b]["component"] = copy.deepcopy(comp)
+                overlay = {"services": {a: {"component": {"shared_opts": {"host": "h2", "tls": False}, "only_a": 1}}}}
+                case = {"kind": "cli", "files": [to_cfg(f) for f in [files[0], overlay]], "sets": [], "svc": b, "env": None,
+                        "alias": [a, b]}
+        return case
 
     # ---- implementation side
     def run_impl(self, case: dict[str, Any]) -> Any:
@@ -165,6 +181,9 @@ class C16(Prop):
         from asphalt.core._cli import main
 
         files = [from_cfg(f) for f in case["files"]]
+        if case.get("alias"):
+            a, b = case["alias"]
+            files[0]["services"][b]["component"] = files[0]["services"][a]["component"]      # dumped as &anchor / *alias
         files0 = copy.deepcopy(files)
         with tempfile.TemporaryDirectory(prefix="verif-c16-") as td:
             paths = []
@@ -252,6 +271,8 @@ class C16(Prop):
             # business: an error is an error; a crash of the command is not)
             # (inputs the statement does not cover - a non-mapping component section, say - crash the command today, and
             # the model says so: any way of failing is as good there)
+            if impl["status"] == "err" and impl["expected"] == "malformed":
+                return None     # (how a section that is no mapping is rejected - usage error or exception - is nobody's promise)
             if impl["status"] != "err" or (impl["err"] == "crash" and model["err"] != "crash"):
                 return f"model: error {model['err']}; implementation: {impl['status']} {impl.get('err')} {impl.get('exc', '')}"
             if impl["calls"]:
@@ -269,7 +290,7 @@ class C16(Prop):
         if impl.get("nested_differs"):
             fails.append("an invocation without --service behaves differently while the application of another invocation "
                          "(with --service) is running in the same process: " + impl["nested_differs"])
-        if exp is None:  # outside the statement (both component and services, crashes)
+        if exp is None or exp == "malformed":  # outside the statement (both component and services, malformed sections)
             return fails
         if impl["status"] == "err" and impl["calls"]:
             fails.append("the command failed but started the application")
@@ -370,13 +391,13 @@ def expected_by_statement(files: list[dict[str, Any]], sets: list[list[Any]], sv
     else:
         return {"err": "ambiguous"}
     if section is not None and not isinstance(section, dict):
-        return None
+        return "malformed"          # a service section that is no mapping: not an input the statement speaks about
     config = spec_merge(config, section)
     if "component" not in config:
         return {"err": "noComponent"}
     comp = config.pop("component")
     if not isinstance(comp, dict):
-        return None
+        return "malformed"          # … nor a component section that is no mapping
     comp = dict(comp)
     if "type" not in comp:
         return {"err": "noType"}
